@@ -48,23 +48,27 @@ Definition funds_sane (c : cfg) (s : l2state) (m : fdep) : Prop :=
   0 ≤ getb (bk s) (modacc c) (fd_denom m) ∧
   ∀ a, resolve c (fd_to m) = Some a → 0 ≤ getb (bk s) a (fd_denom m).
 
+(* in outcome (A) no refund is recorded: the only records appended are those of the hook's own
+   withdrawal messages (consecutive sequences, w_refund = false) *)
 Lemma outcome_A_logs c s m s' :
-  outcome_A c s m s' → wlog s' = wlog s ∧ next_l2 s' = next_l2 s ∧ dlog s' = deposit_rec m true :: dlog s.
+  outcome_A c s m s' → user_records s s' ∧ dlog s' = deposit_rec m true :: dlog s.
 Proof.
   intros (a & s_mid & _ & (F & _ & _) & H).
   destruct (reg_pair_frame (set_next_l1 s (next_l1 s + 1)%N) (fd_denom m) (fd_base m))
     as (_ & _ & G3 & _ & _ & _ & _ & G8 & G9). fold (fd_gate s m) in G3, G8, G9. cbn in G3, G8, G9.
   destruct F as (_ & F2 & _ & _ & _ & _ & _ & F8 & F9).
   destruct H as [(_ & ->)|(_ & s4 & Hh & ->)]; cbn.
-  - split; [congruence|]. split; [congruence|]. congruence.
-  - apply run_hook_frame in Hh as (_ & H2 & _ & _ & _ & _ & H8 & H9).
-    split; [congruence|]. split; [congruence|]. congruence.
+  - split; [apply user_records_refl; cbn; congruence|congruence].
+  - apply run_hook_frame in Hh as ((_ & _ & _ & _ & _ & H9) & (ws & Hw & Hn & Hf & Hs) & _).
+    split; [|congruence]. exists ws. cbn. rewrite Hw, Hn, Hs, F2, F8, G3, G8. auto.
 Qed.
 
 Lemma outcomes_exclusive c s m s' : outcome_A c s m s' → outcome_B s m s' → False.
 Proof.
-  intros HA HB. apply outcome_A_logs in HA as (Hw & _). destruct HB as (_ & _ & _ & Hw' & _).
-  rewrite Hw in Hw'. apply (f_equal length) in Hw'. cbn in Hw'. lia.
+  intros HA HB. apply outcome_A_logs in HA as ((ws & Hw & _ & Hf & _) & _). destruct HB as (_ & _ & _ & Hw' & _).
+  rewrite Hw in Hw'. change (refund_rec m (next_l2 s) (refund_base s m) :: wlog s)
+    with ([refund_rec m (next_l2 s) (refund_base s m)] ++ wlog s) in Hw'.
+  apply app_inv_tail in Hw'. subst ws. apply Forall_cons in Hf as [Hf _]. discriminate Hf.
 Qed.
 
 (* ---- specifications of the handler's pieces (met by the plain and by the faulted version) ---- *)
@@ -76,9 +80,10 @@ Definition dep_spec (c : cfg) (s : l2state) (m : fdep) (s1 : l2state) (ok : bool
      (∀ d', gets (bk s1) d' = gets (bk s) d' + deltad d' (fd_denom m) (fd_amt m))).
 
 Definition hook_spec (c : cfg) (s3 : l2state) (dep_ok : bool) (h : hookp) (s4 : l2state) (ok : bool) : Prop :=
-  frame_bk_seqs s3 s4 ∧
+  frame_hook s3 s4 ∧
   (seqs s4 = seqs s3 ∨ ∃ signer, seqs s4 = <[signer := (getseq s3 signer + 1)%N]> (seqs s3)) ∧
-  (ok = false → dep_ok = true ∧ hook_nonempty h = true ∧ bk s4 = bk s3) ∧
+  (ok = false → dep_ok = true ∧ hook_nonempty h = true ∧ bk s4 = bk s3 ∧
+                wlog s4 = wlog s3 ∧ next_l2 s4 = next_l2 s3) ∧
   (ok = true → (dep_ok && hook_nonempty h = false ∧ s4 = s3) ∨
                (dep_ok = true ∧ hook_nonempty h = true ∧ run_hook c s3 h = (s4, true))).
 
@@ -92,7 +97,7 @@ Proof.
   split; [done|]. split; [done|]. unfold fd_hook_run in H.
   destruct (dep_ok && hook_nonempty h) eqn:E.
   - apply andb_true_iff in E as [-> Hne]. split.
-    + intros ->. destruct (Hf eq_refl) as [Hb _]. auto.
+    + intros ->. destruct (Hf eq_refl) as (?&?&?&_). auto 6.
     + intros ->. right. auto.
   - injection H as <- <-. split; [discriminate|]. intros _. left. auto.
 Qed.
@@ -132,7 +137,7 @@ Proof.
   - destruct (gate_frame s s1 m F1) as (G & Gb). split.
     + exists a, (fd_gate s1 m). split; [done|]. split; [|right; eauto].
       split; [done|]. rewrite Gb. done.
-    + destruct F4 as (E1 & _ & E3 & E4 & E5 & E6 & _).
+    + destruct F4 as (E1 & E3 & E4 & E5 & E6 & _).
       destruct G as (G1 & _ & G3 & G4 & G5 & G6 & _). destruct (gate_fields s m) as (_ & H2 & _ & H4 & H5 & H6 & _).
       unfold processed. cbn. rewrite E1, E3, E4, E5, E6, G1, G3, G4, G5, G6. auto.
 Qed.
@@ -154,7 +159,12 @@ Proof.
     destruct (Hh1 eq_refl) as [(_ & ->)|(Hx & _)]; [|discriminate]. rewrite Gb. by rewrite (Hd0 eq_refl). }
   destruct (gate_fields s m) as (H1 & H2 & H3 & H4 & H5 & H6 & H7 & H8 & H9 & H10).
   destruct G as (G1 & G2 & G3 & G4 & G5 & G6 & G7 & G8 & G9).
-  destruct F4 as (E1 & E2 & E3 & E4 & E5 & E6 & E8 & E9).
+  assert (Hkeep : wlog s4 = wlog (fd_gate s1 m) ∧ next_l2 s4 = next_l2 (fd_gate s1 m)).
+  { destruct hook_ok; [|destruct (Hh0 eq_refl) as (_&_&_&?&?); done].
+    rewrite andb_true_r in Hok. subst dep_ok.
+    destruct (Hh1 eq_refl) as [(_ & ->)|(Hx & _)]; [done|discriminate]. }
+  destruct Hkeep as (E8 & E2).
+  destruct F4 as (E1 & E3 & E4 & E5 & E6 & E9).
   assert (Hseq : seqs s4 = seqs s ∨ ∃ signer, seqs s4 = <[signer := (getseq s signer + 1)%N]> (seqs s)).
   { unfold getseq in *. rewrite G7, H7 in Hq. exact Hq. }
   assert (Hfin : ∀ s5, frame_bk s4 s5 →
@@ -175,7 +185,7 @@ Proof.
       auto 10. }
   destruct dep_ok.
   - (* credited, hook failed *)
-    cbn [andb] in Hok. subst hook_ok. destruct (Hh0 eq_refl) as (_ & _ & Hb4).
+    cbn [andb] in Hok. subst hook_ok. destruct (Hh0 eq_refl) as (_ & _ & Hb4 & _).
     destruct (Hd1 eq_refl) as (a & Ha & Hb1 & Hs1).
     assert (B4 : bk s4 = bk s1) by congruence.
     unfold fd_reclaim. rewrite Ha. cbn [mbind option_bind].
@@ -310,34 +320,35 @@ Proof.
   intros [= <-]. eapply escaped_last; eauto.
 Qed.
 
-(* the hook's sends with faults: success only if the fault-free fold succeeds with the same bank *)
-Lemma hook_sends_f_Some c fe signer sends : ∀ tr b tr' b',
-  hook_sends_f c fe tr b signer sends = (tr', Some b') →
-  foldl (λ ob snd, b ← ob; hook_send c b signer snd) (Some b) sends = Some b'.
+(* the hook's messages with faults: success only if the fault-free fold succeeds with the same state *)
+Lemma hook_msgs_f_Some c fe signer msgs : ∀ tr s tr' s',
+  hook_msgs_f c fe tr s signer msgs = (tr', Some s') →
+  foldl (λ os m, s ← os; hook_msg c s signer m) (Some s) msgs = Some s'.
 Proof.
-  induction sends as [|snd rest IH]; intros tr b tr' b'; cbn [hook_sends_f foldl].
+  induction msgs as [|m rest IH]; intros tr s tr' s'; cbn [hook_msgs_f foldl].
   - by intros [= _ <-].
   - unfold call. destruct (fault fe (length tr)); [discriminate|].
-    cbn [mbind option_bind]. destruct (hook_send c b signer snd) as [b1|]; [|discriminate]. apply IH.
+    cbn [mbind option_bind]. destruct (hook_msg c s signer m) as [s1|]; [|discriminate]. apply IH.
 Qed.
 
 Lemma run_hook_f_spec c fe tr s h tr' s4 ok :
   run_hook_f c fe tr s h = (tr', (s4, ok)) →
-  frame_bk_seqs s s4 ∧
+  frame_hook s s4 ∧
   (seqs s4 = seqs s ∨ ∃ signer, seqs s4 = <[signer := (getseq s signer + 1)%N]> (seqs s)) ∧
-  (ok = false → bk s4 = bk s) ∧
+  (ok = false → bk s4 = bk s ∧ wlog s4 = wlog s ∧ next_l2 s4 = next_l2 s) ∧
   (ok = true → run_hook c s h = (s4, true)).
 Proof.
-  unfold run_hook_f, run_hook. destruct h as [| |signer tseq sig_ok sends].
-  - intros [= _ <- <-]. split; [apply frame_bk_weaken, frame_bk_refl|]. auto.
-  - intros [= _ <- <-]. split; [apply frame_bk_weaken, frame_bk_refl|]. split; [auto|]. split; [done|discriminate].
+  unfold run_hook_f, run_hook. destruct h as [| |signer tseq sig_ok msgs].
+  - intros [= _ <- <-]. split; [apply frame_hook_refl|]. auto.
+  - intros [= _ <- <-]. split; [apply frame_hook_refl|]. split; [auto|]. split; [done|discriminate].
   - destruct (p_hookgas (prm s) <? hook_gas_floor)%N.
-    { intros [= _ <- <-]. split; [apply frame_bk_weaken, frame_bk_refl|]. split; [auto|]. split; [done|discriminate]. }
+    { intros [= _ <- <-]. split; [apply frame_hook_refl|]. split; [auto|]. split; [done|discriminate]. }
     destruct (negb _).
-    { intros [= _ <- <-]. split; [apply frame_bk_weaken, frame_bk_refl|]. split; [auto|]. split; [done|discriminate]. }
-    destruct (hook_sends_f _ _ _ _ _ _) as [tr1 [b|]] eqn:Hs.
-    + intros [= _ <- <-]. apply hook_sends_f_Some in Hs. rewrite Hs.
-      split; [repeat split|]. split; [right; eauto|]. split; [discriminate|done].
+    { intros [= _ <- <-]. split; [apply frame_hook_refl|]. split; [auto|]. split; [done|discriminate]. }
+    destruct (hook_msgs_f _ _ _ _ _ _) as [tr1 [s2|]] eqn:Hs.
+    + intros [= _ <- <-]. apply hook_msgs_f_Some in Hs. rewrite Hs.
+      apply hook_fold_spec in Hs as (F & Q & _). cbn in F, Q.
+      split; [exact F|]. split; [right; exists signer; by rewrite Q|]. split; [discriminate|done].
     + intros [= _ <- <-]. split; [repeat split|]. split; [right; eauto|]. split; [done|discriminate].
 Qed.
 
@@ -346,8 +357,8 @@ Lemma hook_f_spec c fe tr s3 dep_ok h tr' s4 ok :
 Proof.
   unfold hook_f. destruct (dep_ok && hook_nonempty h) eqn:E.
   - apply andb_true_iff in E as [-> Hne]. intros H. apply run_hook_f_spec in H as (F & Hq & H0 & H1).
-    split; [done|]. split; [done|]. split; [intros Hk; auto|]. intros Hk. right. auto.
-  - intros [= _ <- <-]. split; [apply frame_bk_weaken, frame_bk_refl|]. split; [auto|].
+    split; [done|]. split; [done|]. split; [intros Hk; destruct (H0 Hk) as (?&?&?); auto 6|]. intros Hk. right. auto.
+  - intros [= _ <- <-]. split; [apply frame_hook_refl|]. split; [auto|].
     split; [discriminate|]. intros _. left. auto.
 Qed.
 
@@ -419,14 +430,14 @@ Proof.
 Qed.
 
 (* with no fault the faulted handler IS the plain handler *)
-Lemma hook_sends_f_nofault c fe signer sends : no_faults fe → ∀ tr b,
-  (hook_sends_f c fe tr b signer sends).2 =
-  foldl (λ ob snd, b ← ob; hook_send c b signer snd) (Some b) sends.
+Lemma hook_msgs_f_nofault c fe signer msgs : no_faults fe → ∀ tr s,
+  (hook_msgs_f c fe tr s signer msgs).2 =
+  foldl (λ os m, s ← os; hook_msg c s signer m) (Some s) msgs.
 Proof.
-  intros Hnf. induction sends as [|snd rest IH]; intros tr b; cbn [hook_sends_f foldl]; [done|].
-  unfold call. rewrite Hnf. cbn [mbind option_bind]. destruct (hook_send c b signer snd) as [b1|].
+  intros Hnf. induction msgs as [|m rest IH]; intros tr s; cbn [hook_msgs_f foldl]; [done|].
+  unfold call. rewrite Hnf. cbn [mbind option_bind]. destruct (hook_msg c s signer m) as [s1|].
   - apply IH.
-  - cbn. by rewrite foldl_None.
+  - cbn. by rewrite hook_fold_None.
 Qed.
 
 Lemma finalize_deposit_f_nofault c fe s m :
@@ -456,9 +467,9 @@ Proof.
   { unfold hook_f, fd_hook_run. destruct (dep_ok && hook_nonempty (fd_hook m)); [|eauto].
     unfold run_hook_f, run_hook. destruct (fd_hook m) as [| |signer tseq sig_ok sends]; eauto.
     destruct (p_hookgas _ <? hook_gas_floor)%N; [eauto|]. destruct (negb _); [eauto|].
-    pose proof (hook_sends_f_nofault c fe signer sends Hnf tr2
-                  (bk (set_seqs (fd_gate s1 m) (<[signer:=(getseq (fd_gate s1 m) signer + 1)%N]> (seqs (fd_gate s1 m)))))) as Hs.
-    destruct (hook_sends_f _ _ _ _ _ _) as [tr3 ob]. cbn [snd] in Hs. rewrite <- Hs. destruct ob; eauto. }
+    pose proof (hook_msgs_f_nofault c fe signer sends Hnf tr2
+                  (set_seqs (fd_gate s1 m) (<[signer:=(getseq (fd_gate s1 m) signer + 1)%N]> (seqs (fd_gate s1 m))))) as Hs.
+    destruct (hook_msgs_f _ _ _ _ _ _) as [tr3 ob]. cbn [snd] in Hs. rewrite <- Hs. destruct ob; eauto. }
   destruct Hhook as (tr3 & ->). destruct (fd_hook_run c (fd_gate s1 m) dep_ok (fd_hook m)) as [s4 hook_ok].
   destruct (dep_ok && hook_ok); [done|].
   assert (Hrec : ∃ tr, reclaim_f c fe tr3 s4 m dep_ok = (tr, fd_reclaim c s4 m dep_ok)).
